@@ -357,7 +357,9 @@ func (e *Exec) atTarget(fr *frame, st *State, h *hctx, fn *ssa.Function, args []
 	}
 	if h.con.NoSafety {
 		e.noSafety++
-		defer func() { e.noSafety-- }()
+		saveKP := e.keepPre
+		e.keepPre = h.con.KeepPre
+		defer func() { e.noSafety--; e.keepPre = saveKP }()
 	}
 	if h.con.InlineDepth > 0 {
 		save := e.MaxInline
